@@ -71,7 +71,7 @@ func ruleOwnEntryNotTarget(ctx *Ctx, rule string) {
 	}
 	// the value stored into c.answers
 	var own ssa.Value
-	for _, b := range f.Blocks {
+	for _, b := range frameBlocks(f) {
 		for _, in := range b.Instrs {
 			if mu, ok := in.(*ssa.MapUpdate); ok {
 				if fld, _ := ssaq.LoadedField(mu.Map); fld != nil && core.FieldName(fld) == "answers" {
@@ -87,7 +87,7 @@ func ruleOwnEntryNotTarget(ctx *Ctx, rule string) {
 	}
 	n, bad := 0, 0
 	pos := q.Pos(f.Pos())
-	for _, b := range f.Blocks {
+	for _, b := range frameBlocks(f) {
 		for _, in := range b.Instrs {
 			ci, ok := in.(ssa.CallInstruction)
 			if !ok || !ci.Common().IsInvoke() {
@@ -156,7 +156,7 @@ func ruleSendReturnErrorOnlyAfterFinish(ctx *Ctx, rule string) {
 	fv, _ := constValueInt(fin)
 	want := fmt.Sprintf("(%d:rpc.answerFlags & p0.flags) != 0:rpc.answerFlags", fv)
 	n := 0
-	for _, b := range f.Blocks {
+	for _, b := range frameBlocks(f) {
 		ret, ok := b.Instrs[len(b.Instrs)-1].(*ssa.Return)
 		if !ok || len(ret.Results) != 2 || ssaq.IsNilConst(ret.Results[1]) {
 			continue
